@@ -91,9 +91,17 @@ class Run:
             proto = (H.L4Protocols.UDP, H.L4Protocols.TCP)[v >> 2]
             o1 = H.IPv4EndpointOption(address=ipaddress.IPv4Address("10.0.8.1"), l4proto=proto, port=port)
             o2 = H.SOMEIPSDLoadBalancingOption(priority=i + (v & 3), weight=7)
-            svc = C.Service(sid, iid, maj, minor, options_1=(o1,), options_2=(o2,), eventgroups=frozenset({1}))
+            run1, ref1 = (o1,), [refwire.ep4("10.0.8.1", port, proto=int(proto))]
+            if (variant >> 11) & 3 == 0:
+                # a family of instances behind one endpoint: every instance's first run starts with the same option and extends
+                # the run of the instance announced before it (answers collected into one message share the option array)
+                common = H.IPv4EndpointOption(address=ipaddress.IPv4Address("10.0.8.1"), l4proto=H.L4Protocols.UDP, port=3099)
+                extra = [H.IPv4EndpointOption(address=ipaddress.IPv4Address("10.0.8.1"), l4proto=H.L4Protocols.TCP, port=3200 + j) for j in range(i)]
+                run1 = (common,) + tuple(extra)
+                ref1 = [refwire.ep4("10.0.8.1", 3099)] + [refwire.ep4("10.0.8.1", 3200 + j, proto=6) for j in range(i)]
+            svc = C.Service(sid, iid, maj, minor, options_1=run1, options_2=(o2,), eventgroups=frozenset({1}))
             self.insts.append(S.ServiceInstance(svc, S.ServerServiceListener(), self.prot.announcer, tm))
-            self.ref_opts.append(([refwire.ep4("10.0.8.1", port, proto=int(proto))], [refwire.opt_loadbal(i + (v & 3), 7)]))
+            self.ref_opts.append((ref1, [refwire.opt_loadbal(i + (v & 3), 7)]))
         self.script = script
         self.sess = net.PeerSession()
         self.raised = []
